@@ -13,7 +13,7 @@ EXTENDS ArgParse, FTab, Json
 CONSTANTS DeclIds,      \* which catalogue declarations
           MaxLen,       \* vectors of length 0..MaxLen
           POptSets,     \* set of parser-option sequences
-          Handlers,     \* subset of {"none","identity","dropnext","inject","error"}
+          Handlers,     \* subset of {"none","identity","dropnext","dropall","inject","error"}
           Policy,       \* token classes of the alphabet
           PreMode,      \* "none": fresh parsers only; "cmds": the judged parse is also run as the SECOND ParseArgs of a parser whose
                         \*         first one selected some command path (every path of the declaration)
